@@ -98,10 +98,23 @@ M.BASIS_IMPLS.update({
 
 _SCHEMAS: dict = {}
 _STD = None
+_STD_ERR = None      # the std schema could not be bootstrapped on this tree: remember, do not retry per case
+
+
+def std_schema():
+    global _STD, _STD_ERR
+    if _STD_ERR is not None:
+        raise _STD_ERR
+    if _STD is None:
+        try:
+            _STD = vrt.std_schema()
+        except Exception as e:   # noqa
+            _STD_ERR = RuntimeError(f'std schema bootstrap failed: {type(e).__name__}: {str(e)[:200]}')
+            raise _STD_ERR
+    return _STD
 
 
 def load_schema(sdl):
-    global _STD
     h = hashlib.sha256(sdl.encode()).hexdigest()[:24]
     if h in _SCHEMAS:
         return _SCHEMAS[h]
@@ -110,16 +123,13 @@ def load_schema(sdl):
     sch = None
     if os.path.exists(path):
         try:
-            if _STD is None:
-                _STD = vrt.std_schema()
+            std_schema()
             with open(path, 'rb') as f:
                 sch = pickle.load(f)
         except Exception:
             sch = None
     if sch is None:
-        if _STD is None:
-            _STD = vrt.std_schema()
-        sch = vrt.load_sdl(_STD, sdl)
+        sch = vrt.load_sdl(std_schema(), sdl)
         try:
             tmp = path + f'.{os.getpid()}.tmp'
             with open(tmp, 'wb') as f:
